@@ -102,6 +102,12 @@ CLAIMED["C11"] = dict(
    technique="symbolic execution with shared-memory footprint tracking; race detector only as replay confirmation",
    ref="DESIGN.md §5 C11")
 
+CLAIMED["C17"] = dict(
+   text="Relational bounded model checking: 24 programs (arithmetic, variables, containers, templates, control flow, functions, computed values, every dice family, syntax errors, identifiers that begin like the custom trigger) with integer variables as 64-bit solver symbols are evaluated plain and with inert extension points in all 7 combinations of {never-matching regex and stream dice incl. a parser that reads ahead and declines, identity load/store hooks, identity detail rewriters}; value, error text, process text, rest / matched text and variables must be identical (SMT equality over the symbols). Matching case: a custom syntax registered as regex and as stream parser, in 10 programs: handler runs once per evaluation of the operand, receives exactly the matched text, result used by copy.",
+   note="regexp is executed natively on concrete text. Programs are enumerated; symbolic source text with custom dice is not explored. Known finding recorded: custom dice are rejected inside look-ahead-guarded constructs such as array literals.",
+   technique="relational symbolic execution (plain vs instrumented VM) + SMT",
+   ref="DESIGN.md §5 C17")
+
 NA = {
 }
 
